@@ -58,6 +58,9 @@ def configs(tier):
     out.append(dict(kind="hist2d", opts="both", nlayers=0))
     # a matplotlib norm INSTANCE given as the norm option (at call level: shared by the layers; or stored on a Layer),
     # together with vmin / vmax: the caller's object must come back untouched
+    # orientation computed from the data ('top' / 'side') with a non-zero origin: the positions must not be shifted in place
+    for dirn in ("top", "side"):
+        out.append(dict(kind="map", res="dict", thick=False, opts="both", direction=dirn))
     for where in ("call", "layer"):
         out.append(dict(kind="hist2d", opts="both", nlayers=2, normobj=where))
         out.append(dict(kind="map", res="dict", thick=False, opts="both", normobj=where))
@@ -369,12 +372,21 @@ def _map(m, cfg):
     mesh = MAPH.MESHES[0]
     ncell = len(mesh)
     rho = m.array("rho", (ncell,), "float64")
-    vel = [m.array("v" + k, (ncell,), "float64") for k in "xyz"]
+    dirn = cfg.get("direction", "z")
+    if dirn in ("top", "side"):
+        # the orientation is computed from positions, velocities and masses: concrete rotation about a tilted axis
+        tag += ":" + dirn
+        pts = np.array([c[0] for c in mesh], dtype=float)
+        vel = [-pts[:, 1] + 0.1 * pts[:, 2], pts[:, 0], -0.1 * pts[:, 0]]
+    else:
+        vel = [m.array("v" + k, (ncell,), "float64") for k in "xyz"]
     dg = Datagroup()
     dg["position"] = Vector(*[np.array([c[0][k] for c in mesh]) for k in range(3)], unit="cm")
     dg["dx"] = Array(np.array([c[1] for c in mesh]), unit="cm")
     dg["density"] = Array(rho, unit="g/cm**3")
     dg["velocity"] = Vector(*vel, unit="cm/s")
+    if dirn in ("top", "side"):
+        dg["mass"] = Array(np.arange(1.0, ncell + 1.0), unit="g")
     lopt = dict(mode="contourf", vmin=1.0, cmap="viridis") if opts in ("layer", "both") else {}
     copt = dict(mode="image", vmin=2.0, vmax=9.0, alpha=0.5) if opts in ("call", "both") else {}
     nobj = None
@@ -392,7 +404,7 @@ def _map(m, cfg):
     resolution = {"int": 2, "dict": {"x": 2, "y": 2}, "partial": {"x": 2}, "none": None}[res]
     if res == "none":
         resolution = None
-    kw = dict(dx=dxq, origin=origin, direction="z", plot=False, **copt)
+    kw = dict(dx=dxq, origin=origin, direction=dirn, plot=False, **copt)
     if resolution is not None:
         kw["resolution"] = resolution
     if thick:
@@ -420,7 +432,9 @@ def _map(m, cfg):
     else:
         Mm = None
     try:
-        with _numba1(m):
+        import contextlib
+        import io
+        with _numba1(m), contextlib.redirect_stdout(io.StringIO()):
             p1 = osyris.map(l1, l2, **kw)
             mid_ok = (not isinstance(resolution, dict)) or (dict(resolution) == res_snap[0] and id(resolution) == res_snap[1])
             p2 = osyris.map(l1, l2, **kw)
